@@ -21,7 +21,8 @@ package queue
 //
 // The monitor also judges the other half of the property - the target IS handed the message for as
 // long as recipients are pending: by the recording target's OWN answers it knows who is pending
-// after every attempt; a further attempt step of the history that does not take place, or a spool
+// after every attempt (each deferred address once - an address listed twice in the envelope is one
+// recipient from the first attempt on, fix 6b03754); a further attempt step of the history that does not take place, or a spool
 // entry that is gone / incomplete / altered at rest while somebody is pending, is
 // C10/pending-message-dropped (resp. C10/spool-content-changed).  First step `R`: Commit is answered
 // by a queue that is already shutting down (time wheel stopped: nothing is dispatched, the client
@@ -1369,7 +1370,13 @@ func (w *c10World) monitor(out *vh.Out, op string, acc *c10Accepted, strictEnv b
 	seen := w.tgt.seen
 	w.tgt.mu.Unlock()
 	expectTo := append([]string{}, acc.to...)
-	// the property speaks of "the recipients still pending": compared as a multiset, not as a sequence
+	// the property speaks of "the recipients still pending": compared as a multiset, not as a sequence.
+	// The FIRST attempt (from memory or, after a restart, from the spool) is handed the accepted list as
+	// it is, an address the client gave twice included.  An attempt classifies every ADDRESS once
+	// (Queue.tryDelivery, seenRcpts): what it leaves pending is the addresses the target's own answers
+	// deferred, each ONCE (c10EachOnce) - so a later attempt must be handed exactly those, each once:
+	// a recipient that disappears, one that appears, and an address handed over twice again are all
+	// C10/pending-recipients-changed.
 	eqL := func(a, b []string) bool {
 		if len(a) != len(b) {
 			return false
@@ -1423,7 +1430,7 @@ func (w *c10World) monitor(out *vh.Out, op string, acc *c10Accepted, strictEnv b
 			}
 		}
 		if s.panicked == 0 {
-			expectTo = s.answeredTemp
+			expectTo = c10EachOnce(s.answeredTemp)
 		}
 		if s.utf8 != acc.utf8 {
 			viol("C10/smtputf8-changed", at+"SMTPUTF8 "+c10Bit(s.utf8))
@@ -1500,7 +1507,7 @@ func (w *c10World) monitorPending(out *vh.Out, op string, acc *c10Accepted, stri
 			out.Stat(w.pfx + "pending-rule.not-applicable.marked-broken-after-a-panic-of-the-target")
 			return
 		}
-		pend = s.answeredTemp
+		pend = c10EachOnce(s.answeredTemp) // an attempt leaves every deferred address pending ONCE (see monitor)
 	}
 	// the queue's own record of a terminal outcome (it gave the recipient up and owes a DSN: whether
 	// THAT was right is C01/C18's business) ends the obligation for that recipient
@@ -1632,6 +1639,26 @@ func (w *c10World) monitorStored(out *vh.Out, op string, acc *c10Accepted, stric
 	}
 }
 
+// c10EachOnce: the addresses of l, each once, in the order of first occurrence (exact string
+// equality: what the queue's walk over QueueMetadata.To with its seenRcpts set keeps).  Written out
+// here, independent of the model and of the code under test.
+func c10EachOnce(l []string) []string {
+	var out []string
+	for i, x := range l {
+		first := true
+		for _, y := range l[:i] {
+			if x == y {
+				first = false
+				break
+			}
+		}
+		if first {
+			out = append(out, x)
+		}
+	}
+	return out
+}
+
 // c10MultisetMinus: a without (one occurrence each of) the elements of b that occur in it.
 func c10MultisetMinus(a, b []string) []string {
 	rest := append([]string{}, a...)
@@ -1659,6 +1686,30 @@ func (w *c10World) stats(out *vh.Out, pfx string, steps []c10Step, acc *c10Accep
 	}
 	out.Stat(fmt.Sprintf("%s.restarts.%d", pfx, nr))
 	out.Stat(pfx + ".end." + strings.SplitN(fin, ":", 2)[0])
+	if len(c10EachOnce(acc.to)) != len(acc.to) {
+		// an envelope that lists an address twice: was the repeated address deferred (so that the
+		// "each once" rule decides what a later attempt is handed), and did a later attempt take place?
+		collapsed, later := false, false
+		for i, s := range seen {
+			if s.panicked != 0 {
+				break
+			}
+			if collapsed && i > 0 {
+				later = true
+			}
+			if len(c10EachOnce(s.answeredTemp)) != len(s.answeredTemp) {
+				collapsed = true
+			}
+		}
+		switch {
+		case later:
+			out.Stat(pfx + ".envelope-repeats-a-recipient.repeated-address-deferred.attempt-after-it")
+		case collapsed:
+			out.Stat(pfx + ".envelope-repeats-a-recipient.repeated-address-deferred.no-attempt-after-it")
+		default:
+			out.Stat(pfx + ".envelope-repeats-a-recipient.repeated-address-never-deferred")
+		}
+	}
 	if len(acc.hdr) > 1<<20 {
 		fromDisk := 0
 		for i, s := range seen {
